@@ -11,6 +11,7 @@
 
   Written for the property-conforming behaviour where the shipped code is defective:
     D14  the payload length is unpacked unsigned (`'<I'`), so lengths ≥ 2^31 hit the MAX_SIZE guard;
+    D20  `msg_version.msg_ser` writes only the fields the message's nVersion carries;
     D15  `headers` entries carry the CompactSize transaction count 0 after each 80-byte header
          (written by msg_ser; read and discarded by msg_deser).
 
@@ -19,8 +20,8 @@
     * `msg_deser` reads from `BytesIO(payload)`; payload bytes left over are ignored;
     * an unknown command prints a line and returns `None` (outcome `ok none`), the frame consumed;
     * the command is the part of the 12-byte field before the first NUL; what follows is ignored;
-    * `msg_version.msg_ser` writes every field unconditionally, `msg_deser` reads `addrFrom …` only
-      from nVersion 106, the height from 209, `fRelay` from 70001 (else `True`), and maps 10300 to 300;
+    * `msg_version.msg_deser` reads `addrFrom …` only from nVersion 106, the height from 209, `fRelay`
+      from 70001 (else `True`), and maps 10300 to 300; `msg_ser` writes under the same conditions (D20);
     * `CAddress.stream_deserialize` builds `cls()` whose protover is PROTO_VERSION.
   `socket.inet_pton / inet_ntop` are modelled, not verified: the model carries the 16 packed bytes
   (contract: `inet_pton(f, inet_ntop(f, b)) = b`, validated by the correspondence run).
@@ -32,8 +33,10 @@ import BtcVerif.Spec.Messages
 namespace BtcVerif.Model.Msg
 open BtcVerif BtcVerif.Model.Wire
 
-def PROTO_VERSION : Nat := Spec.Msg.protoVersion
-def CADDR_TIME_VERSION : Nat := Spec.Msg.caddrTimeVersion
+/-- net.py `PROTO_VERSION`, `CADDR_TIME_VERSION` (the model's own transcription; the Spec table has its
+    own, tied to /repo by T1) -/
+def PROTO_VERSION : Nat := 60002
+def CADDR_TIME_VERSION : Nat := 31402
 
 /-! ### net.py -/
 
@@ -97,28 +100,36 @@ def serLocatorMsg (l : Locator) (hashstop : Bytes) : Res Bytes := do
   let a ← serLocator l
   pure (a ++ hashstop)
 
-/-- `msg_version.msg_ser`: all fields, whatever nVersion.  A `None` field raises: `None` has no
-    `stream_serialize` (AttributeError), `struct.pack` of None is `struct.error`, `len(None)` is
-    TypeError. -/
+/-- `msg_version.msg_ser` (D20 repaired): the fields after `addrTo` are written under the same
+    conditions `msg_deser` reads them — `addrFrom`, `nNonce`, `strSubVer` from nVersion 106, the height
+    from 209, `fRelay` from 70001.  A `None` field that is due raises: `None` has no `stream_serialize`
+    (AttributeError), `struct.pack` of None is `struct.error`, `len(None)` is TypeError. -/
 def serVersion (v : VersionMsg) : Res Bytes := do
   let a ← packI 4 v.nVersion
   let b ← packU 8 v.nServices
   let c ← packI 8 v.nTime
   let d ← serAddr true v.addrTo
-  let e ← match v.addrFrom with
-    | some x => serAddr true x
-    | none => throw (.py "AttributeError")
-  let f ← match v.nNonce with
-    | some n => packU 8 n
-    | none => throw structError
-  let g ← match v.strSubVer with
-    | some s => serVarStr s
-    | none => throw (.py "TypeError")
-  let h ← match v.nStartingHeight with
-    | some n => packI 4 n
-    | none => throw structError
-  let i ← packU 1 v.fRelay
-  pure (a ++ b ++ c ++ d ++ e ++ f ++ g ++ h ++ i)
+  let e ←
+    if v.nVersion ≥ 106 then do
+      let e ← match v.addrFrom with
+        | some x => serAddr true x
+        | none => throw (.py "AttributeError")
+      let f ← match v.nNonce with
+        | some n => packU 8 n
+        | none => throw structError
+      let g ← match v.strSubVer with
+        | some s => serVarStr s
+        | none => throw (.py "TypeError")
+      let h ←
+        if v.nVersion ≥ 209 then
+          (match v.nStartingHeight with
+           | some n => packI 4 n
+           | none => throw structError)
+        else pure []
+      pure (e ++ f ++ g ++ h)
+    else pure []
+  let i ← if v.nVersion ≥ 70001 then packU 1 v.fRelay else pure []
+  pure (a ++ b ++ c ++ d ++ e ++ i)
 
 /-- `msg_headers.msg_ser` (D15 repaired): each header followed by CompactSize 0 -/
 def serHeaderEntry (h : Header) : Res Bytes := do
@@ -204,31 +215,88 @@ def mapP {α β} (f : α → β) (p : Parser α) : Parser β := fun s => do
   let (x, r) ← p s
   pure (f x, r)
 
+/-! ### the `command` class attributes (ASCII bytes as they stand in messages.py) -/
+
+/-- `b"version"` -/
+def cmd_version : Bytes := [0x76, 0x65, 0x72, 0x73, 0x69, 0x6f, 0x6e]
+/-- `b"verack"` -/
+def cmd_verack : Bytes := [0x76, 0x65, 0x72, 0x61, 0x63, 0x6b]
+/-- `b"addr"` -/
+def cmd_addr : Bytes := [0x61, 0x64, 0x64, 0x72]
+/-- `b"alert"` -/
+def cmd_alert : Bytes := [0x61, 0x6c, 0x65, 0x72, 0x74]
+/-- `b"inv"` -/
+def cmd_inv : Bytes := [0x69, 0x6e, 0x76]
+/-- `b"getdata"` -/
+def cmd_getdata : Bytes := [0x67, 0x65, 0x74, 0x64, 0x61, 0x74, 0x61]
+/-- `b"notfound"` -/
+def cmd_notfound : Bytes := [0x6e, 0x6f, 0x74, 0x66, 0x6f, 0x75, 0x6e, 0x64]
+/-- `b"getblocks"` -/
+def cmd_getblocks : Bytes := [0x67, 0x65, 0x74, 0x62, 0x6c, 0x6f, 0x63, 0x6b, 0x73]
+/-- `b"getheaders"` -/
+def cmd_getheaders : Bytes := [0x67, 0x65, 0x74, 0x68, 0x65, 0x61, 0x64, 0x65, 0x72, 0x73]
+/-- `b"headers"` -/
+def cmd_headers : Bytes := [0x68, 0x65, 0x61, 0x64, 0x65, 0x72, 0x73]
+/-- `b"tx"` -/
+def cmd_tx : Bytes := [0x74, 0x78]
+/-- `b"block"` -/
+def cmd_block : Bytes := [0x62, 0x6c, 0x6f, 0x63, 0x6b]
+/-- `b"getaddr"` -/
+def cmd_getaddr : Bytes := [0x67, 0x65, 0x74, 0x61, 0x64, 0x64, 0x72]
+/-- `b"ping"` -/
+def cmd_ping : Bytes := [0x70, 0x69, 0x6e, 0x67]
+/-- `b"pong"` -/
+def cmd_pong : Bytes := [0x70, 0x6f, 0x6e, 0x67]
+/-- `b"reject"` -/
+def cmd_reject : Bytes := [0x72, 0x65, 0x6a, 0x65, 0x63, 0x74]
+/-- `b"mempool"` -/
+def cmd_mempool : Bytes := [0x6d, 0x65, 0x6d, 0x70, 0x6f, 0x6f, 0x6c]
+
+/-- `self.command` of the class of each message -/
+def command : Msg → Bytes
+  | .version _ => cmd_version
+  | .verack => cmd_verack
+  | .addr _ => cmd_addr
+  | .alert _ _ => cmd_alert
+  | .inv _ => cmd_inv
+  | .getdata _ => cmd_getdata
+  | .notfound _ => cmd_notfound
+  | .getblocks _ _ => cmd_getblocks
+  | .getheaders _ _ => cmd_getheaders
+  | .headers _ => cmd_headers
+  | .tx _ => cmd_tx
+  | .block _ => cmd_block
+  | .getaddr => cmd_getaddr
+  | .ping _ => cmd_ping
+  | .pong _ => cmd_pong
+  | .reject _ _ _ => cmd_reject
+  | .mempool => cmd_mempool
+
 /-- `messagemap`: command → `msg_deser` of its class -/
 def msgDeser (command : Bytes) : Option (Parser Msg) :=
-  if command = Spec.Msg.cmdVersion then some deVersion
-  else if command = Spec.Msg.cmdVerack then some (fun s => pure (.verack, s))
-  else if command = Spec.Msg.cmdAddr then some (mapP Msg.addr (deVector (deAddr false)))
-  else if command = Spec.Msg.cmdAlert then some deAlert
-  else if command = Spec.Msg.cmdInv then some (mapP Msg.inv (deVector deInv))
-  else if command = Spec.Msg.cmdGetdata then some (mapP Msg.getdata (deVector deInv))
-  else if command = Spec.Msg.cmdNotfound then some (mapP Msg.notfound (deVector deInv))
-  else if command = Spec.Msg.cmdGetblocks then some (deLocatorMsg Msg.getblocks)
-  else if command = Spec.Msg.cmdGetheaders then some (deLocatorMsg Msg.getheaders)
-  else if command = Spec.Msg.cmdHeaders then some (mapP Msg.headers (deVector deHeaderEntry))
-  else if command = Spec.Msg.cmdTx then some (mapP Msg.tx deTx)
-  else if command = Spec.Msg.cmdBlock then some (mapP Msg.block deBlock)
-  else if command = Spec.Msg.cmdGetaddr then some (fun s => pure (.getaddr, s))
-  else if command = Spec.Msg.cmdPing then some (mapP Msg.ping (readU 8))
-  else if command = Spec.Msg.cmdPong then some (mapP Msg.pong (readU 8))
-  else if command = Spec.Msg.cmdReject then some deReject
-  else if command = Spec.Msg.cmdMempool then some (fun s => pure (.mempool, s))
+  if command = cmd_version then some deVersion
+  else if command = cmd_verack then some (fun s => pure (.verack, s))
+  else if command = cmd_addr then some (mapP Msg.addr (deVector (deAddr false)))
+  else if command = cmd_alert then some deAlert
+  else if command = cmd_inv then some (mapP Msg.inv (deVector deInv))
+  else if command = cmd_getdata then some (mapP Msg.getdata (deVector deInv))
+  else if command = cmd_notfound then some (mapP Msg.notfound (deVector deInv))
+  else if command = cmd_getblocks then some (deLocatorMsg Msg.getblocks)
+  else if command = cmd_getheaders then some (deLocatorMsg Msg.getheaders)
+  else if command = cmd_headers then some (mapP Msg.headers (deVector deHeaderEntry))
+  else if command = cmd_tx then some (mapP Msg.tx deTx)
+  else if command = cmd_block then some (mapP Msg.block deBlock)
+  else if command = cmd_getaddr then some (fun s => pure (.getaddr, s))
+  else if command = cmd_ping then some (mapP Msg.ping (readU 8))
+  else if command = cmd_pong then some (mapP Msg.pong (readU 8))
+  else if command = cmd_reject then some deReject
+  else if command = cmd_mempool then some (fun s => pure (.mempool, s))
   else none
 
 /-! ### framing -/
 
-/-- `h[:4]` of the double SHA-256 of the payload -/
-def checksum (payload : Bytes) : Bytes := (Crypto.hash256 payload).take 4
+/-- `th = sha256(body).digest(); h = sha256(th).digest(); h[:4]` -/
+def checksum (payload : Bytes) : Bytes := (Crypto.sha256 (Crypto.sha256 payload)).take 4
 
 /-- `MsgSerializable.to_bytes` after `msg_ser`: every command is at most 12 bytes, so
     `b"\x00" * (12 - len(command))` pads (a negative count would give `b""`, as `replicate` does) -/
@@ -239,7 +307,7 @@ def frame (magic command body : Bytes) : Res Bytes := do
 /-- `MsgSerializable.to_bytes` under `bitcoin.params.MESSAGE_START = magic` -/
 def toBytes (magic : Bytes) (m : Msg) : Res Bytes := do
   let body ← msgSer m
-  frame magic (Spec.Msg.command m) body
+  frame magic (command m) body
 
 /-- `ser_read(f, n)` on a `BytesIO`, keeping the stream position on failure as well -/
 def readPos (n : Nat) (s : Bytes) : Res Bytes × Bytes :=
@@ -273,6 +341,13 @@ def streamDeserialize (magic : Bytes) (s : Bytes) : Res (Option Msg) × Bytes :=
                | .error e => (.error e, r'))
           | none => (.ok none, r')
 
+/-- header, declared length and checksum of the first frame of `s` pass `stream_deserialize`'s tests:
+    what remains is the dispatch on the command and `msg_deser` on the payload -/
+def frameAccepted (magic s : Bytes) : Bool :=
+  decide (24 ≤ s.length) && decide (s.take 4 = magic) && decide (declaredLen s ≤ MAX_SIZE) &&
+    decide (24 + declaredLen s ≤ s.length) &&
+    decide ((s.drop 20).take 4 = checksum ((s.drop 24).take (declaredLen s)))
+
 /-- `MsgSerializable.from_bytes(b)`: whatever follows the first frame is ignored -/
 def fromBytes (magic : Bytes) (b : Bytes) : Res (Option Msg) := (streamDeserialize magic b).1
 
@@ -292,5 +367,21 @@ def parseAllAux (magic : Bytes) : Nat → Bytes → List (Option Msg) × Option 
 
 def parseAll (magic : Bytes) (s : Bytes) : List (Option Msg) × Option Exc :=
   parseAllAux magic s.length s
+
+/-- the same loop recording the stream position: every message with the stream that remains after it
+    (`f.tell()` = bytes written − bytes remaining), and the error with what remains after the failing call -/
+def parseTraceAux (magic : Bytes) : Nat → Bytes → List (Option Msg × Bytes) × Option (Exc × Bytes)
+  | 0, _ => ([], none)
+  | fuel + 1, s =>
+    if s.isEmpty then ([], none)
+    else
+      match streamDeserialize magic s with
+      | (.ok m, r) =>
+          let (ms, e) := parseTraceAux magic fuel r
+          ((m, r) :: ms, e)
+      | (.error e, r) => ([], some (e, r))
+
+def parseTrace (magic : Bytes) (s : Bytes) : List (Option Msg × Bytes) × Option (Exc × Bytes) :=
+  parseTraceAux magic s.length s
 
 end BtcVerif.Model.Msg
